@@ -20,6 +20,16 @@ def amounts_and_pace():
                 continue
             out.append({"config": {"max": 1}, "calls": [{"op": "begin", "token": [97], "amount": []}, {"op": "commit", "token": [97], "amount": amt}],
                         "plan": {"exchanges": [okp, {"o": "abort", "code": code}], "default": okp}})
+    # the reversal of the dangling pre-authorisation the terminal reports (the clean-up of commit, cancel and configure) aborted with
+    # every code, end of day completing afterwards
+    for code in range(256):
+        for calls, lead in (([{"op": "begin", "token": [97], "amount": []}, {"op": "commit", "token": [97], "amount": [1]}], [okp, okp]),
+                            ([{"op": "begin", "token": [97], "amount": []}, {"op": "cancel", "token": [97], "amount": []}], [okp, okp]),
+                            ([{"op": "configure"}], [okp, okp])):
+            if calls[0]["op"] == "configure" and code % 4:
+                continue
+            out.append({"config": {"max": 1}, "term": {"dangling": [77]}, "calls": calls,
+                        "plan": {"exchanges": lead + [{"o": "pending"}, {"o": "abort", "code": code}], "default": okp}})
     for code in (0x6c, 0xb7, 5, 0xff, 0x64):
         for gap in (25000, 40000):
             late = {"o": "abort", "code": code, "inter": 2, "delays": [gap, gap, gap, gap]}
